@@ -19,8 +19,13 @@
 //!   sh <expr> <view> <view> `<Show when=.. fallback=..>`
 //!   for <expr> <n> <list>*n `<For each=move || lists[sel mod n] key=|k| *k children=|k| <li>{k}</li>>`
 //!   forr <expr> <n> <list>*n <view>  `<For ..>` with rows `<li>{k}{view}</li>`; the row view is constructed inside `children`
+//!   fore <expr> <n> <list>*n <view>  `<ForEnumerate ..>` with the same rows; inside the row `V<d>` (d = number of `sc` around the
+//!                                    reference inside the row) is the row's `index` signal
 //!   sc <sid> m <expr> <view>  a component body: `let m = Memo::new(move |_| expr); view`   (created where the view is CONSTRUCTED:
 //!   sc <sid> s <init> <view>                     `let l = RwSignal::new(init); view`         in the effect run / row / mount closure)
+//!   eb <view>               `<ErrorBoundary fallback=|_| "error">{view}</ErrorBoundary>`
+//!   res <expr> <expr>       `move || if c != 0 { Err(HxErr) } else { Ok(v.to_string()) }`: a `Result` leaf (throws to the
+//!                           enclosing boundary while it is `Err`, renders the `()` placeholder)
 //!   susp <expr> <view>      `<Suspense fallback="wait">` over an `AsyncDerived` of the expression (resolves after one more poll), children `(value, view)`   (implementation only)
 //!   errb <expr> <view>      `<ErrorBoundary>` over `move || if e != 0 { Err } else { Ok(view) }` (implementation only)
 //! <attr>: as <name> <hex> | ad <name> <expr> | ac <name> <expr> | ay <name> <expr>
@@ -67,8 +72,14 @@ pub enum ViewD {
     For(Expr, Vec<Vec<u32>>),
     /// `<For>` with rows `<li>{k}{row}</li>`
     ForR(Expr, Vec<Vec<u32>>, Box<ViewD>),
+    /// `<ForEnumerate>` with rows `<li>{k}{row}</li>`; the row's outermost state (`V<depth>`) is its index signal
+    ForE(Expr, Vec<Vec<u32>>, Box<ViewD>),
     /// a component body that creates state of its own
     Scope(u32, LDef, Box<ViewD>),
+    /// `<ErrorBoundary>` with the fallback text "error"
+    Eb(Box<ViewD>),
+    /// a `Result` leaf: `Err` while the first expression is non-zero, else `Ok(second.to_string())`
+    Res(Expr, Expr),
     Susp(Expr, Box<ViewD>),
     Errb(Expr, Box<ViewD>),
 }
@@ -212,6 +223,11 @@ pub fn parse_view(t: &mut Toks) -> Option<ViewD> {
             let lists = parse_lists(t)?;
             ViewD::ForR(sel, lists, Box::new(parse_view(t)?))
         }
+        "fore" => {
+            let sel = parse_expr(t)?;
+            let lists = parse_lists(t)?;
+            ViewD::ForE(sel, lists, Box::new(parse_view(t)?))
+        }
         "sc" => {
             let sid: u32 = t.next()?.parse().ok()?;
             let d = match t.next()? {
@@ -221,6 +237,8 @@ pub fn parse_view(t: &mut Toks) -> Option<ViewD> {
             };
             ViewD::Scope(sid, d, Box::new(parse_view(t)?))
         }
+        "eb" => ViewD::Eb(Box::new(parse_view(t)?)),
+        "res" => ViewD::Res(parse_expr(t)?, parse_expr(t)?),
         "susp" => ViewD::Susp(parse_expr(t)?, Box::new(parse_view(t)?)),
         "errb" => ViewD::Errb(parse_expr(t)?, Box::new(parse_view(t)?)),
         _ => return None,
@@ -256,8 +274,11 @@ pub fn show_view(v: &ViewD) -> String {
         ViewD::Show(c, a, b) => format!("sh {} {} {}", show_expr(c), show_view(a), show_view(b)),
         ViewD::For(sel, lists) => format!("for {} {}", show_expr(sel), show_lists(lists)),
         ViewD::ForR(sel, lists, row) => format!("forr {} {} {}", show_expr(sel), show_lists(lists), show_view(row)),
+        ViewD::ForE(sel, lists, row) => format!("fore {} {} {}", show_expr(sel), show_lists(lists), show_view(row)),
         ViewD::Scope(sid, LDef::Memo(b), kid) => format!("sc {sid} m {} {}", show_expr(b), show_view(kid)),
         ViewD::Scope(sid, LDef::Sig(v), kid) => format!("sc {sid} s {v} {}", show_view(kid)),
+        ViewD::Eb(k) => format!("eb {}", show_view(k)),
+        ViewD::Res(c, e) => format!("res {} {}", show_expr(c), show_expr(e)),
         ViewD::Susp(e, a) => format!("susp {} {}", show_expr(e), show_view(a)),
         ViewD::Errb(e, a) => format!("errb {} {}", show_expr(e), show_view(a)),
     }
@@ -370,7 +391,7 @@ fn struct_guards(defs: &[Def], env: &[i64], v: &ViewD, out: &mut Vec<Guard>) {
         }
         ViewD::For(sel, _) => out.push(Guard::Reads(reads_of(defs, sel))),
         // views with component-local state are outside the guard oracle (`is_x`)
-        ViewD::ForR(..) | ViewD::Scope(..) => {}
+        ViewD::ForR(..) | ViewD::ForE(..) | ViewD::Scope(..) | ViewD::Eb(..) | ViewD::Res(..) => {}
         ViewD::Susp(e, a) => {
             out.push(Guard::Reads(reads_of(defs, e)));
             struct_guards(defs, env, a, out)
@@ -432,23 +453,23 @@ pub fn ref_render(defs: &[Def], env: &[i64], v: &ViewD, path: &[Guard], out: &mu
             out.push(RefNode { kind: 'C', guards: p, kids: vec![] })
         }
         // implementation-only constructors are not covered by the untouched-nodes oracle
-        ViewD::Susp(..) | ViewD::Errb(..) | ViewD::ForR(..) | ViewD::Scope(..) => {}
+        ViewD::Susp(..) | ViewD::Errb(..) | ViewD::ForR(..) | ViewD::ForE(..) | ViewD::Scope(..) | ViewD::Eb(..) | ViewD::Res(..) => {}
     }
 }
 
 pub fn has_impl_only(v: &ViewD) -> bool {
     match v {
         ViewD::Susp(..) | ViewD::Errb(..) => true,
-        ViewD::Text(_) | ViewD::Unit | ViewD::DynText(_) | ViewD::For(..) => false,
-        ViewD::Elem(_, _, k) | ViewD::ForR(_, _, k) | ViewD::Scope(_, _, k) => has_impl_only(k),
+        ViewD::Text(_) | ViewD::Unit | ViewD::DynText(_) | ViewD::For(..) | ViewD::Res(..) => false,
+        ViewD::Elem(_, _, k) | ViewD::ForR(_, _, k) | ViewD::ForE(_, _, k) | ViewD::Scope(_, _, k) | ViewD::Eb(k) => has_impl_only(k),
         ViewD::Seq(a, b) | ViewD::Either(_, a, b) | ViewD::Show(_, a, b) => has_impl_only(a) || has_impl_only(b),
     }
 }
 
-/// the view uses component-local state or rows with content of their own
+/// the view uses component-local state, rows with content of their own or error boundaries
 pub fn is_x(v: &ViewD) -> bool {
     match v {
-        ViewD::ForR(..) | ViewD::Scope(..) => true,
+        ViewD::ForR(..) | ViewD::ForE(..) | ViewD::Scope(..) | ViewD::Eb(..) | ViewD::Res(..) => true,
         ViewD::Text(_) | ViewD::Unit | ViewD::DynText(_) | ViewD::For(..) => false,
         ViewD::Elem(_, _, k) | ViewD::Susp(_, k) | ViewD::Errb(_, k) => is_x(k),
         ViewD::Seq(a, b) | ViewD::Either(_, a, b) | ViewD::Show(_, a, b) => is_x(a) || is_x(b),
